@@ -137,6 +137,11 @@ namespace gmgpolar_verif {
 struct Access {
     static const SparseMatrixCSR<double>& csr(const DirectSolverGiveCustomLU& s) { return s.solver_matrix_; }
     static const SparseMatrixCSR<double>& csr(const DirectSolverTakeCustomLU& s) { return s.solver_matrix_; }
+    // assembly task functions of the direct solvers (K-footprint, C11)
+    static void dgc(DirectSolverGiveCustomLU& s, int i, SparseMatrixCSR<double>& m) { s.buildSolverMatrixCircleSection(i, m); }
+    static void dgr(DirectSolverGiveCustomLU& s, int j, SparseMatrixCSR<double>& m) { s.buildSolverMatrixRadialSection(j, m); }
+    static void dtc(DirectSolverTakeCustomLU& s, int i, SparseMatrixCSR<double>& m) { s.buildSolverMatrixCircleSection(i, m); }
+    static void dtr(DirectSolverTakeCustomLU& s, int j, SparseMatrixCSR<double>& m) { s.buildSolverMatrixRadialSection(j, m); }
     // K-rhs (C02): the private right-hand-side discretisation of setup()
     static void discretize(GMGPolar& s, const Level& l, Vector<double>& v) { s.discretize_rhs_f(l, v); }
     // the task functions of the parallel regions (K-footprint, C11)
